@@ -20,6 +20,8 @@ var allSpecs = []HarnessSpec{
 	{Prop: "C03", Func: "ZZ_C03_FailStop", Tag: "shape=3", POR: true, Replay: "native", Params: map[string]int{"shape": 3, "failing": 1, "__coarse": 1}},
 	{Prop: "C04", Func: "ZZ_H_History", Tag: "prop=4", POR: true, Replay: "native", Twin: true, Params: map[string]int{"prop": 4, "steps": 2, "__coarse": 1}, TParams: map[string]int{"steps": 3}},
 	{Prop: "C04", Func: "ZZ_H_History", Tag: "prop=4,cancelled-by-sibling", POR: true, Replay: "native", Params: map[string]int{"prop": 4, "steps": 2, "sibling_history": 1, "__coarse": 1}},
+	{Prop: "C05", Func: "ZZ_H_Instances", POR: true, Replay: "native", Twin: true, Params: map[string]int{"steps": 3, "__coarse": 1}},
+	{Prop: "C04", Func: "ZZ_H_Instances", POR: true, Replay: "native", Params: map[string]int{"steps": 3, "__coarse": 1}},
 	{Prop: "C05", Func: "ZZ_H_History", Tag: "prop=5", POR: true, Replay: "native", Twin: true, Params: map[string]int{"prop": 5, "steps": 2, "__coarse": 1}, TParams: map[string]int{"steps": 3}},
 	{Prop: "C12", Func: "ZZ_H_History", Tag: "prop=12", POR: true, Replay: "native", Twin: true, Params: map[string]int{"prop": 12, "steps": 2, "__coarse": 1}, TParams: map[string]int{"steps": 3}},
 	{Prop: "C03", Func: "ZZ_C03_FailStop", Tag: "shape=4", POR: true, Replay: "native", Params: map[string]int{"shape": 4, "failing": 1, "__coarse": 1}},
@@ -49,6 +51,7 @@ var allSpecs = []HarnessSpec{
 	{Prop: "C17", Pkg: "internal/output", Func: "ZZ_C17_Prefixed", POR: true, Replay: "native", Twin: true, Params: map[string]int{"maxchunks": 1, "__coarse": 1}, TParams: map[string]int{"maxchunks": 2}},
 	{Prop: "C19", Pkg: "args", Func: "ZZ_C19_Get", Replay: "native", Twin: true},
 	{Prop: "C19", Pkg: "args", Func: "ZZ_C19_Parse", Replay: "native", Twin: true},
+	{Prop: "C19", Pkg: "args", Func: "ZZ_C19_Dialect", Replay: "native", Twin: true},
 	{Prop: "C19", Pkg: "cmd/task", Func: "ZZ_C19_Init", Replay: "native", ReplayPkg: "args", ReplayFunc: "ZZ_C19_Init_native", Twin: true},
 }
 
